@@ -44,6 +44,9 @@ def gen_cases(tier, seed):
                       'seed': rng.randrange(1 << 30)})
     for i in range(6 if tier == 'quick' else 80):
         cases.append({'kind': 'stop', 'moment': ['before', 'blocked-get', 'blocked-put'][i % 3], 'n': rng.choice([1, 3]), 'seed': rng.randrange(1 << 30)})
+    # the blocked call carries an explicit, long timeout: stop still wins
+    for i in range(2 if tier == 'quick' else 12):
+        cases.append({'kind': 'stop', 'moment': ['blocked-put', 'responsive-get'][i % 2], 'n': 2, 'with_timeout': True, 'seed': rng.randrange(1 << 30)})
     # consumers race for fewer items than there are consumers, the losers stay blocked, then the stop is requested
     for i in range(6 if tier == 'quick' else 100):
         cases.append({'kind': 'stop', 'moment': 'race', 'n': rng.choice([2, 3, 4]), 'items': rng.choice([1, 1, 2]), 'rounds': 5 if tier == 'quick' else 12, 'seed': rng.randrange(1 << 30)})
@@ -283,14 +286,21 @@ def run_stop(case):
         q.put('fill')
     else:
         q = MQ.IterableQueue(_queue.Queue(), num_suppliers=1, to_stop=ev)
+    rq = MQ.ResponsiveQueue(_queue.Queue(), ev) if moment == 'responsive-get' else None
     res = {}
 
     def blocked(i):
         t0 = None
         try:
             if moment == 'blocked-put':
-                q.put(('x', i))
+                if case.get('with_timeout') and i % 2 == 0:
+                    q.put(('x', i), timeout=12)  # an explicit (long) timeout on the blocked call: the stop request still ends it
+                else:
+                    q.put(('x', i))
                 res[i] = ('returned', None)
+            elif moment == 'responsive-get':
+                x = rq.get(timeout=12 if i % 2 == 0 else None)
+                res[i] = ('returned', x)
             else:
                 x = next(q)
                 res[i] = ('returned', x)
